@@ -30,6 +30,8 @@ ASSUMPTIONS = ['normalisation: hex id suffixes renumbered by first appearance; c
                'its G3 uses the generator that served the refused requests']
 BOUNDS = {'quick': 'H = 4, six circuits (one of them partly untranspilable, one with a memory that the simulation steps fill) + circuit beh paired with a second circuit whose generation must be refused (four different transpiled classes, two instances of one of them with different constructor arguments, a parent-to-child forwarded Verilog parameter, combinational hierarchy with shared named modules, ModuloCounter, transpiled FSM + registers, a sub-block in its own named clock domain)',
           'thorough': 'H = 5 for the circuit pairs lanes/comb, comb/seq, beh/fsm, partbad/comb; H = 4 for the others'}
+for k in ('quick', 'thorough'):
+    BOUNDS[k] += '; also the hierarchy text requested before any simulator exists for the circuit'
 
 OPS = ['G1', 'G1r', 'G2', 'G2f', 'G3', 'G4', 'Gx', 'L', 'P', 'S', 'M']
 MAXTASKS = 1        # every shard in a freshly forked process: class-level / module-level tables start pristine
